@@ -16,6 +16,7 @@ class Ctx(object):
         self.T = F.Tables(self.mods)
         self.E = Engine(self.src)
         self.E.explore_budget_s = 300 if run.tier == "quick" else 1500
+        self.E.explore_total_budget_s = 900 if run.tier == "quick" else 6000
         from pyvc import effects
         effects.install(self.E)
         self.E.lower_hints = list(self.T.RELEASE_TYPES)
